@@ -48,12 +48,12 @@ def thr : Nat := Gen.C18.ceilThresholdMs
 def ceilSec (t : Nat) : Nat := ((t + 999) / 1000) * 1000
 
 /-- `TimeoutHandle.start`: `when = now + timeout; if timeout >= ceil_threshold: when = ceil(when)` -/
-def totalDeadline (now timeout : Nat) : Nat :=
-  if timeout ≥ thr then ceilSec (now + timeout) else now + timeout
+def totalDeadline (th now timeout : Nat) : Nat :=
+  if timeout ≥ th then ceilSec (now + timeout) else now + timeout
 
 /-- `ceil_timeout`: `when = now + delay; if delay > ceil_threshold: when = ceil(when)` -/
-def ctxDeadline (now delay : Nat) : Nat :=
-  if delay > thr then ceilSec (now + delay) else now + delay
+def ctxDeadline (th now delay : Nat) : Nat :=
+  if delay > th then ceilSec (now + delay) else now + delay
 
 /-! ## vocabulary -/
 
@@ -119,6 +119,7 @@ structure Cfg where
   bufsize : Nat := 65536
   https : Bool := false            -- TLS: after the TCP connect the handshake runs inside `create_connection`
   closeDelim : Bool := false       -- response body delimited by connection close (no Content-Length, not chunked)
+  thr : Nat := Gen.C18.ceilThresholdMs   -- `ClientTimeout.ceil_threshold` in ms
   early : Bool := false            -- the caller streams `resp.content` and leaves `async with` after the first chunk
   expect100 : Bool := false        -- `Expect: 100-continue`: the body is written only after a 1xx response arrived
   c0 : Nat := 0                    -- `Task.cancelling()` of the calling task when it starts the request
@@ -318,7 +319,7 @@ def finish (s : St) (o : Outcome) : St :=
 def attemptConn (cfg : Cfg) (s : St) : St :=
   let s := match cfg.sockConnect with
     | some d => if d = 0 then { s with sockCtx := .entered, sockT := none, sockBase := s.cancelling }
-                else { s with sockCtx := .entered, sockT := some (ctxDeadline s.now d, s.seq), seq := s.seq + 1,
+                else { s with sockCtx := .entered, sockT := some (ctxDeadline cfg.thr s.now d, s.seq), seq := s.seq + 1,
                               sockBase := s.cancelling }
     | none => { s with sockCtx := .entered, sockT := none, sockBase := s.cancelling }
   { s with pc := .connecting, wake := none, tls := false }
@@ -335,11 +336,11 @@ def createConn (cfg : Cfg) (s : St) : St :=
 /-- `TimeoutHandle.start()` and entering `ceil_timeout(connect)` -/
 def armStart (cfg : Cfg) (s : St) : St :=
   let s := match cfg.effTotal with
-    | some d => if d = 0 then s else { s with totalT := some (totalDeadline s.now d, s.seq), seq := s.seq + 1 }
+    | some d => if d = 0 then s else { s with totalT := some (totalDeadline cfg.thr s.now d, s.seq), seq := s.seq + 1 }
     | none => s
   match cfg.connect with
     | some d => if d = 0 then { s with connCtx := .entered, connBase := s.cancelling, tcBase := s.cancelling }
-                else { s with connCtx := .entered, connT := some (ctxDeadline s.now d, s.seq), seq := s.seq + 1,
+                else { s with connCtx := .entered, connT := some (ctxDeadline cfg.thr s.now d, s.seq), seq := s.seq + 1,
                               connBase := s.cancelling, tcBase := s.cancelling }
     | none => { s with connCtx := .entered, connBase := s.cancelling, tcBase := s.cancelling }
 
